@@ -1,14 +1,18 @@
 //! Correspondence harness: generates cases, runs the real crates (built from /repo's working
 //! tree) in-process and prints one protocol line per case (input + the implementation's
 //! canonicalised output) for the Lean driver.  See /verif/DESIGN.md section 5.
+mod c07;
 mod c16;
 mod c17;
 mod c20;
 mod mp4gen;
 mod mp4props;
 mod mp4run;
+mod refdec;
 mod rng;
 mod sparse;
+mod synth;
+mod webprun;
 
 use std::io::Write;
 use std::sync::atomic::{AtomicBool, Ordering};
@@ -114,6 +118,7 @@ fn main() {
     for line in replay_lines.iter() {
         let line = line.clone();
         match prop.as_str() {
+            "C07" | "C08" => c07::replay(&prop, &line, &mut out),
             "C16" => c16::replay(&line, &mut out),
             "C17" => c17::replay(&line, &mut out),
             "C20" => c20::replay(&line, &mut out),
@@ -129,6 +134,7 @@ fn main() {
         return;
     }
     match prop.as_str() {
+        "C07" | "C08" => c07::run(&prop, &opts, &mut out),
         "C16" => c16::run(&opts, &mut out),
         "C17" => c17::run(&opts, &mut out),
         "C20" => c20::run(&opts, &mut out),
